@@ -1,4 +1,5 @@
 CONSTANT AsCodedReinit = TRUE
+CONSTANT MolSlots = TRUE
 CONSTANT MaxCells = 7
 CONSTANT Acts = {"Combine", "MkPart", "MkMol", "PartFilter"}
 SPECIFICATION Spec
